@@ -271,9 +271,10 @@ def object_feature(img):
     return img['kind']
 
 
-def doc_differences(orig, loaded, strip, label_from=None):
-    """All classified differences; guarded by whole-image equality so nothing is missed."""
-    a, b = image(orig, strip), image(loaded, strip)
+def doc_differences(orig, loaded, strip, label_from=None, orig_image=None):
+    """All classified differences; guarded by whole-image equality so nothing is missed.
+    orig_image: image(orig, strip) computed earlier (orig unchanged since)."""
+    a, b = orig_image if orig_image is not None else image(orig, strip), image(loaded, strip)
     diffs = compare(a, b, lab=None if label_from is None else image(label_from, strip))
     if not diffs and frozen(a) != frozen(b):
         diffs.append({'clause': 'snapshot-equal', 'feature': 'unclassified', 'object': '/',
@@ -402,20 +403,26 @@ REPERTOIRES = {
 
 def doc_nonascii(rep):
     """Non-ASCII text of one repertoire in every text carrying attribute: author, version, names, types,
-    definitions, references, units, dependencies, value origins and the values of every textual dtype."""
+    definitions, references, units, dependencies, value origins and the values of every textual dtype.
+    Section i puts text (i + j) mod n into slot j, so every text of the repertoire visits every slot."""
     texts = REPERTOIRES[rep]
+    n = len(texts)
     with h.quiet():
-        doc = odml.Document(author=texts[0], version=texts[1 % len(texts)], date=dt.date(2022, 3, 4))
-        for i, t in enumerate(texts):
-            u = texts[(i + 1) % len(texts)]
-            sec = odml.Section(name=t, type='typ ' + u, parent=doc, definition=t + ' / ' + u, reference=u)
-            odml.Property(name=t, dtype='string', values=[t, u, 'x, ' + t], parent=sec, unit=u, definition=t,
-                          reference=u, dependency=t, dependency_value=u, value_origin=t)
-            odml.Property(name='single ' + u, dtype='string', values=[t], parent=sec)
-            odml.Property(name='text', dtype='text', values=[t + '\n' + u], parent=sec)
-            odml.Property(name='person', dtype='person', values=[u + ', ' + t], parent=sec)
-            odml.Property(name='tuple', dtype='2-tuple', values=['(%s;%s)' % (t, u), '(%s;x)' % u], parent=sec)
-            odml.Section(name=u + ' sub', type=t, parent=sec, definition=u)
+        doc = odml.Document(author=texts[0], version=texts[1 % n], date=dt.date(2022, 3, 4))
+        for i in range(n):
+            t = [texts[(i + j) % n] for j in range(14)]
+            sec = odml.Section(name=t[0], type='typ ' + t[1], parent=doc, definition=t[2] + ' / ' + t[3],
+                               reference=t[3])
+            odml.Property(name=t[4], dtype='string', values=[t[5], t[6], 'x, ' + t[7]], parent=sec, unit=t[8],
+                          definition=t[9], reference=t[10], dependency=t[11], dependency_value=t[12],
+                          value_origin=t[13])
+            odml.Property(name='tuple', dtype='2-tuple', values=['(%s;%s)' % (t[0], t[1]), '(%s;x)' % t[2]],
+                          parent=sec)
+            if i == 0:
+                odml.Property(name='single', dtype='string', values=[t[1]], parent=sec)
+                odml.Property(name='text', dtype='text', values=[t[0] + '\n' + t[1]], parent=sec)
+                odml.Property(name='person', dtype='person', values=[t[1] + ', ' + t[0]], parent=sec)
+                odml.Section(name=t[1] + ' sub', type=t[0], parent=sec, definition=t[1])
     return doc
 
 
@@ -462,9 +469,10 @@ def c01_extra_documents():
 
 def c01_documents(tier, seed):
     """(label, doc, rich): documents() plus the XML-only ones; rich marks the fixed documents, which get the full
-    cross product of input forms and entry points (the generated ones get a rotating selection)."""
+    cross product of input forms and entry points (the generated ones get a rotating selection; in the quick tier
+    so do the fixed documents that are about something else than text: dtypes, cardinalities, edge strings)."""
     for label, doc in documents(tier, seed):
-        yield label, doc, not label.startswith('gen_docs')
+        yield label, doc, label == 'attrs' or (tier != 'quick' and not label.startswith('gen_docs'))
     for label, doc in c01_extra_documents():
         yield label, doc, True
 
@@ -566,7 +574,7 @@ def generalise(pairs, all_pairs, mode=lambda pair: xml_reader_mode(pair[1])):
 
 
 def input_kind(label):
-    """'str' | 'bytes' of an input form label ('str:decl=UTF-8', 'bytes:utf-16le/bom+decl', ...)."""
+    """'str' | 'bytes' | 'file' of an input form label ('str:decl=UTF-8', 'bytes:utf-16le/bom+decl', ...)."""
     return label.split(':', 1)[0]
 
 
@@ -910,9 +918,12 @@ STYLED_READERS = ['odml.load', 'ODMLReader.from_file[path]', 'XMLReader(lenient)
 
 
 def readers_for(input_label, styled=False):
+    kind = input_kind(input_label)
     if styled:
-        return list(STYLED_READERS) if input_kind(input_label) == 'bytes' else []
-    if input_kind(input_label) == 'bytes':
+        return list(STYLED_READERS) if kind in ('bytes', 'file') else []
+    if kind == 'file':          # the file as the writer left it: entry points that take a path / open it
+        return [r for r in BYTES_READERS if '[path]' in r or r == 'odml.load' or 'binary-handle' in r]
+    if kind == 'bytes':
         return list(BYTES_READERS)
     out = list(STR_READERS)
     if input_label in TEXT_HANDLE_FORMS:
@@ -969,15 +980,23 @@ def read_input(reader, data, path):
     return r, list(rd.warnings)
 
 
-def select_forms(rich, k, body, tier):
-    """Input forms for one text: all of them for the fixed documents (and, thorough tier, for generated documents
-    with non-ASCII text); otherwise the plain ones plus a window of four that moves with the case number."""
-    if rich or (tier != 'quick' and not body.isascii()):
+def select_forms(full, k, base=('bytes:utf-8/decl', 'str:nodecl', 'str:decl=UTF-8')):
+    """All input forms, or the plain ones (base) plus a window of four that moves with the case number k."""
+    if full:
         return list(FORMS)
-    base = ['bytes:utf-8/decl', 'str:nodecl', 'str:decl=UTF-8']
     rest = [f for f in FORMS if f.label not in base]
     pick = [rest[(4 * k + j) % len(rest)] for j in range(4)]
     return [FORM_BY_LABEL[b] for b in base] + pick
+
+
+def wants_all_forms(tier, rich, body, n_doc, n_source, n_sources):
+    """Fixed documents: every form for every source (quick tier: for one source that moves with the document
+    number). Generated documents: the moving window (thorough tier: every form for one moving source when the
+    text is not pure ASCII)."""
+    turn = n_source == n_doc % n_sources
+    if rich:
+        return tier != 'quick' or turn
+    return tier != 'quick' and turn and not body.isascii()
 
 
 class Cases(object):
@@ -988,6 +1007,7 @@ class Cases(object):
         self.path, self.source_dim, self.contract = path, source_dim, contract
         self.found = {}
         self.universe = []
+        self.orig_image = image(doc, True)
 
     def note(self, case, check, feature, obj, field, detail):
         self.found.setdefault((check, feature, obj, field), {'cases': set(), 'detail': detail})['cases'].add(case)
@@ -1005,7 +1025,7 @@ class Cases(object):
         if not isinstance(loaded, h.BaseDocument):
             self.note(case, 'reader-accepts', 'no-document-returned', '/', None, 'reader returned %r' % (loaded,))
             return
-        for d in doc_differences(self.doc, loaded, strip=True):
+        for d in doc_differences(self.doc, loaded, strip=True, orig_image=self.orig_image):
             self.note(case, d['clause'], d['feature'], d['object'], d.get('field'), d['detail'])
         if not styled and expect_no_warnings and '(strict)' in reader and warns:
             self.note(case, 'strict-no-warnings', 'warnings-on-1.1-xml', '/', None,
@@ -1033,7 +1053,7 @@ def native_inputs(produced, path):
                 ('str:library-header+returned', xp.XMLWriter.header + body),
                 ('bytes:own-decl+returned/utf-8', (XML_DECL + body).encode('utf-8'))], body
     text = sniff_decode(produced)
-    return [('bytes:file-as-written', None), ('bytes:file-content', produced), ('str:file-decoded', text)], \
+    return [('file:as-written', None), ('bytes:file-content', produced), ('str:file-decoded', text)], \
         strip_decl(text)
 
 
@@ -1078,7 +1098,8 @@ def run_roundtrip(tier, seed):
                     for rname in readers_for(input_label, styled):
                         cases.path = fpath if data is None else path2
                         cases.evaluate(wname, input_label, data, rname, styled)
-                for form in select_forms(rich, n_doc * len(WRITERS) + n_w, body, tier):
+                full = wants_all_forms(tier, rich, body, n_doc, n_w, len(WRITERS))
+                for form in select_forms(full, n_doc * len(WRITERS) + n_w, base=()):   # plain ones: the natives
                     if styled and not form.fits(body):
                         continue        # character references inside the stylesheet element are not ours to write
                     data = form.build(body)
@@ -1096,7 +1117,7 @@ def run_roundtrip(tier, seed):
                             writer_raised += 1
                             continue
                         cases.path = fpath
-                        cases.evaluate(wname, 'bytes:file-as-written/name=' + ascii(fname), None, rname)
+                        cases.evaluate(wname, 'file:as-written/name=' + ascii(fname), None, rname)
             cases.flush()
             if h.snap(doc, parent=False) != before:
                 agg.add(check='C01.xml_roundtrip/writer-leaves-document-unchanged',
@@ -1384,7 +1405,8 @@ def run_foreign_writer(tier, seed):
                 own = vocabulary_problems(StdET.fromstring(body), styled=False)
                 if own:
                     raise AssertionError('foreign writer is not 1.1 conformant: %r' % (own[:3],))
-                for form in select_forms(rich, n_doc * len(VARIANTS) + n_v, body, tier):
+                full = wants_all_forms(tier, rich, body, n_doc, n_v, len(VARIANTS))
+                for form in select_forms(full, n_doc * len(VARIANTS) + n_v):
                     if VARIANTS[variant][0] == 'cdata' and not form.fits(body):
                         continue        # no character references inside CDATA
                     data = form.build(body)
